@@ -85,22 +85,30 @@ theorem unlink_only_removes (fs : Fs) (dir : Bytes) (d : CPath) (recursive : Boo
     ∀ x ∈ (dirUnlinkTop fs dir recursive).1.ents, x ∈ fs.ents :=
   (dirUnlink_frame _ recursive fs dir d hok hpp).sub
 
-/-- Recursive unlink removes exactly the given tree: when Directory::unlink reports success in a
-    well-formed world, every path in the tree at `d` is gone and every other path is unchanged. -/
-theorem unlink_removes_exactly_tree_partial (fs : Fs) (dir : Bytes) (d : CPath) (recursive : Bool)
+/-- whenever Directory::unlink (recursive or not) reports success in a well-formed world, every path in
+    the tree at `d` is gone and every other path is unchanged. -/
+theorem unlink_success_means_tree_gone (fs : Fs) (dir : Bytes) (d : CPath) (recursive : Bool)
     (hwf : WF fs) (hpp : PlainParent fs dir d) (h : (dirUnlinkTop fs dir recursive).2 = true) :
     ∀ q, (d <+: q → (dirUnlinkTop fs dir recursive).1.get q = none) ∧
          (¬ (d <+: q) → (dirUnlinkTop fs dir recursive).1.get q = fs.get q) :=
   fun q => ⟨dirUnlink_true_gone _ recursive fs dir d hwf hpp h q,
             (dirUnlink_frame _ recursive fs dir d hwf.names hpp).out q⟩
 
-/-
-OPEN: unlink_removes_exactly_tree — the statement above WITHOUT the hypothesis `h`, i.e. additionally
-  `WF fs → PlainParent fs dir d → fs.get d = some .dir → (dirUnlinkTop fs dir true).2 = true`
-  (recursive unlink of an existing directory tree always succeeds in the model: the fuel
-  `ents.length + 2` bounds the depth, every entry of the tree is reached through `children`).
-  Success is observed on every tree of the correspondence run; it is not proved.
--/
+/-- Recursive unlink removes exactly the given tree: in a well-formed world, recursive Directory::unlink of
+    an existing directory given by a plain path succeeds, afterwards no path of the tree at `d` exists and
+    every other path is unchanged. -/
+theorem unlink_removes_exactly_tree (fs : Fs) (dir : Bytes) (d : CPath)
+    (hwf : WF fs) (hpp : PlainParent fs dir d) (hg : fs.get d = some .dir) :
+    (dirUnlinkTop fs dir true).2 = true ∧
+    ∀ q, (d <+: q → (dirUnlinkTop fs dir true).1.get q = none) ∧
+         (¬ (d <+: q) → (dirUnlinkTop fs dir true).1.get q = fs.get q) :=
+  ⟨dirUnlinkTop_succeeds fs dir d hwf hpp hg,
+   unlink_success_means_tree_gone fs dir d true hwf hpp (dirUnlinkTop_succeeds fs dir d hwf hpp hg)⟩
+
+/-- well-formedness is kept by Directory::unlink (so the theorems apply to whole histories of unlinks) -/
+theorem unlink_keeps_wellformed (fs : Fs) (dir : Bytes) (recursive : Bool) (hwf : WF fs) :
+    WF (dirUnlinkTop fs dir recursive).1 :=
+  dirUnlink_wf _ recursive fs dir hwf
 
 /-! non-vacuity -/
 /-- a world with a tree `/s/a` (file, sub-directory with a file, link to the outside directory `/o/od`) -/
